@@ -6,7 +6,7 @@ Interface used by vlib.check:
   nontrivial(case, obs) ; bucket(case, obs) -> labels for the input distribution
   optional: classify, explain, shrink, search, drive
 """
-from vlib import cN, cnat, cbool, clist, copt, cpair, run_driver
+from vlib import cN, cnat, cbool, clist, copt, cpair, cstr, run_driver
 
 ID = "C13"
 GO_PKG = "./lib/hash"
@@ -18,14 +18,99 @@ GEN_SPEC = {"items": [
 QUICK_N = 160
 THOROUGH_N = 2400
 SHARD = 40
-RULE = ("membership histories of 3-10 Add/AddWithWeight/AddWithReplicas/Remove ops over node ids 0..7 "
-        "(string, struct and Stringer nodes by id mod 3), replicas in {50,100,101,120}, 24 random probe keys "
-        "looked up after every op with the default murmur3 hash; non-trivial = at least two different owners "
-        "observed and at least one Remove or re-Add of a present node; distinct = distinct canonical case JSON")
+RULE = ("membership histories of 3-10 Add/AddWithWeight/AddWithReplicas/Remove ops over node ids 0..7, every node of a "
+        "random Go TYPE (string, struct value, *Stringer, pointer to a plain struct, plain struct value, *string, int, *int, "
+        "value-receiver Stringer by value and by pointer, nil-safe Stringer; pointer nodes are re-passed as freshly "
+        "allocated equal values in 1/3 of the ops), a quarter of the histories end by removing every node; replicas in "
+        "{50,100,101,120}; 24 probe keys of random Go types (strings, *string, []byte, ints, bools, struct values and "
+        "pointers, Stringers, the nil interface, typed nil pointers, nil-receiver Stringers), several of them with EQUAL "
+        "representations, looked up after every op with the default murmur3 hash; non-trivial = at least two different "
+        "owners observed and at least one Remove or re-Add of a present node; distinct = distinct canonical case JSON")
 TRUSTED = ["murmur3 (hash values tabulated by the driver; the model is parametric in the hash and only uses "
            "order/equality of positions, so the encoder rank-compresses the 64-bit values)",
-           "lang.Repr distinct for distinct generated nodes"]
+           "strconv / fmt.Sprint texts of scalars and struct values (computed by the generator, compared with the observed "
+           "lang.Repr output of every key and node in model_ok); distinct generated nodes have distinct texts"]
+
+NODE_KINDS = ["string", "struct", "stringer", "pstruct", "plain", "pstr", "int", "pint", "vstringer", "pvstringer",
+              "safestringer"]
+POINTER_NODE_KINDS = {"stringer", "pstruct", "pstr", "pint", "pvstringer", "safestringer"}
+
+
+def node_gval(kind, i):
+    """the node value built by verifMakeNode as a C13.Model.gval (text = lang.Repr on the unchanged tree)"""
+    return {"string": lambda: "(GVal %s)" % cstr("node-%d" % i),
+            "struct": lambda: "(GVal %s)" % cstr("{%d}" % i),
+            "stringer": lambda: "(GStringer %s)" % cstr("stringer-%d" % i),
+            "pstruct": lambda: "(GPtr (Some %s))" % cstr("{10.0.0.%d:6379 %d}" % (i, i % 3)),
+            "plain": lambda: "(GVal %s)" % cstr("{plain-%d:80 %d}" % (i, i)),
+            "pstr": lambda: "(GPtr (Some %s))" % cstr("pnode-%d" % i),
+            "int": lambda: "(GVal %s)" % cstr("%d" % (1000 + i)),
+            "pint": lambda: "(GPtr (Some %s))" % cstr("%d" % (2000 + i)),
+            "vstringer": lambda: "(GStringer %s)" % cstr("vs-%d" % i),
+            "pvstringer": lambda: "(GStringer %s)" % cstr("vs-%d" % (100 + i)),
+            "safestringer": lambda: "(GStringer %s)" % cstr("safe-%d" % i)}[kind]()
+
+
+def key_gval(k):
+    """a probe key (JSON string or {"k": kind, "s": .., "i": ..}) as a C13.Model.gval"""
+    if isinstance(k, str):
+        return "(GVal %s)" % cstr(k)
+    kind, sv, iv = k["k"], k.get("s", ""), k.get("i", 0)
+    val, ptr, strg = (lambda t: "(GVal %s)" % cstr(t)), (lambda t: "(GPtr (Some %s))" % cstr(t)), (lambda t: "(GStringer %s)" % cstr(t))
+    table = {"str": lambda: val(sv), "pstr": lambda: ptr(sv), "bytes": lambda: val(sv),
+             "int": lambda: val("%d" % iv), "pint": lambda: ptr("%d" % iv), "i64": lambda: val("%d" % iv), "u32": lambda: val("%d" % iv),
+             "bool": lambda: val("true" if iv else "false"), "pbool": lambda: ptr("true" if iv else "false"),
+             "nil": lambda: "GNil", "nilpstr": lambda: "(GPtr None)", "nilpint": lambda: "(GPtr None)",
+             "nilpstruct": lambda: "(GPtr None)", "nilpstruct2": lambda: "(GPtr None)",
+             "struct": lambda: val("{%d}" % iv), "pstruct": lambda: ptr("{%d}" % iv),
+             "plain": lambda: val("{%s %d}" % (sv, iv)), "pplain": lambda: ptr("{%s %d}" % (sv, iv)),
+             "stringer": lambda: strg("stringer-%d" % iv), "vstringer": lambda: strg("vs-%d" % iv), "pvstringer": lambda: strg("vs-%d" % iv),
+             "safestringer": lambda: strg("safe-%d" % iv), "nilsafestringer": lambda: strg("nil-safe")}
+    return table[kind]()
+
+
+def _gen_keys(rng, n):
+    """n probe keys of mixed Go types; about a third of them share their representation with another one"""
+    keys = []
+    while len(keys) < n:
+        r = rng.random()
+        tag = "k%d-%d" % (rng.randrange(10 ** 6), len(keys))
+        num = rng.randrange(10 ** 6)
+        if r < 0.30:
+            keys.append(tag)
+        elif r < 0.40:     # one text, several Go types
+            keys += rng.sample([tag, {"k": "pstr", "s": tag}, {"k": "bytes", "s": tag}, {"k": "str", "s": tag}], 2)
+        elif r < 0.50:
+            keys += rng.sample([{"k": "int", "i": num}, {"k": "pint", "i": num}, {"k": "i64", "i": num}, {"k": "u32", "i": num},
+                                {"k": "str", "s": "%d" % num}], 2)
+        elif r < 0.58:     # typed nil pointers, the nil interface and their texts as strings
+            keys.append(rng.choice([{"k": "nilpstr"}, {"k": "nilpint"}, {"k": "nilpstruct"}, {"k": "nilpstruct2"}, {"k": "nil"},
+                                    {"k": "str", "s": "<nil>"}, {"k": "str", "s": ""}, {"k": "nilsafestringer"},
+                                    {"k": "str", "s": "nil-safe"}]))
+        elif r < 0.68:
+            keys += rng.sample([{"k": "struct", "i": num}, {"k": "pstruct", "i": num}, {"k": "str", "s": "{%d}" % num}], 2)
+        elif r < 0.76:
+            a = "10.0.%d.%d:6379" % (num % 200, num % 7)
+            keys += rng.sample([{"k": "plain", "s": a, "i": num % 5}, {"k": "pplain", "s": a, "i": num % 5},
+                                {"k": "str", "s": "{%s %d}" % (a, num % 5)}], 2)
+        elif r < 0.88:
+            kind = rng.choice(["stringer", "vstringer", "pvstringer", "safestringer"])
+            keys.append({"k": kind, "i": num})
+            if rng.random() < 0.5:
+                keys.append({"k": "str", "s": {"stringer": "stringer-%d", "vstringer": "vs-%d", "pvstringer": "vs-%d",
+                                               "safestringer": "safe-%d"}[kind] % num})
+        elif r < 0.94:
+            keys.append(rng.choice([{"k": "bool", "i": num % 2}, {"k": "pbool", "i": num % 2}]))
+        else:
+            keys.append(tag)
+    rng.shuffle(keys)
+    return keys[:n]
+
 ASSUMPTIONS = ["no ring-position collision between virtual nodes (checked per case: hyp label in input_distribution)",
+               "keys/nodes whose own String/Error method panics (e.g. a nil pointer of a Stringer type whose String "
+               "dereferences its receiver or has a value receiver) are caller faults and outside the claim: lang.Repr "
+               "propagates that panic; in scope: untyped nil, typed nil pointers of non-Stringer types, nil-safe Stringers "
+               "with nil receivers, pointers to values, struct values",
                "share-proportional-to-weight clause is statistical and is checked as a test in the thorough tier only"]
 
 
@@ -75,8 +160,18 @@ def generate(rng, tier, n):
             else:
                 ops.append({"op": "addr", "node": node, "arg": rng.choice([0, 1, 57, 100, 130])})
             present.add(node)
-        probes = ["k%d-%d" % (rng.randrange(10 ** 6), i) for i in range(24)]
-        cases.append({"replicas": replicas, "custom": custom, "ops": ops, "probes": probes})
+        kinds = [rng.choice(NODE_KINDS) for _ in range(8)]
+        for o in ops:
+            if kinds[o["node"]] in POINTER_NODE_KINDS and rng.random() < 0.33:
+                o["fresh"] = True
+        if present and rng.random() < 0.25:      # removing every node empties the ring
+            for node in rng.sample(sorted(present), len(present)):
+                o = {"op": "remove", "node": node}
+                if kinds[node] in POINTER_NODE_KINDS and rng.random() < 0.33:
+                    o["fresh"] = True
+                ops.append(o)
+        probes = _gen_keys(rng, 24)
+        cases.append({"replicas": replicas, "custom": custom, "ops": ops, "probes": probes, "kinds": kinds})
     if tier == "thorough":
         # statistical clause, as a TEST: fixed membership configurations (murmur3 is deterministic, so the
         # outcome is too, up to the ~4 % sampling noise of the probe keys); tolerance 50 % of the weight share
@@ -140,11 +235,25 @@ def _encode_ring(case, obs):
             ops.append("XRemove %s" % cnat(o["node"]))
     vh = [cpair(cnat(int(n)), clist([cN(rank[h]) for h in hs])) for n, hs in sorted(obs["vhash"].items(), key=lambda kv: int(kv[0]))]
     probes = [cpair(cN(rank[p]), cN(i)) for p, i in zip(obs["phash"], obs["ihash"])]
-    rows = [clist([copt(None if v < 0 else cnat(v)) for v in row]) for row in obs["results"]]
-    if case.get("balance_tol"):
-        # only the final row matters for the balance test; intermediate rows are still checked by spec_rows
-        pass
-    return "mkcase %s %s %s %s %s %s %s" % (cnat(case["replicas"]), cbool(case["custom"]), clist(ops), clist(vh), clist(probes), clist(rows), cnat(case.get("balance_tol", 0)))
+    # -1 absent, -2 a value that was never handed to the ring (encoded as a node id nobody has), -3 Get panicked
+    rows = [clist([copt(None if v in (-1, -3) else cnat(9999 if v == -2 else v)) for v in row]) for row in obs["results"]]
+    gpanic = [clist([cbool(v == -3) for v in row]) for row in obs["results"]]
+    kinds = case.get("kinds") or [["string", "struct", "stringer"][i % 3] for i in range(8)]
+    used = sorted({o["node"] for o in case["ops"]})
+    ostr = lambda r: copt(None if r is None else cstr(r))
+    nrepr_obs = obs.get("nrepr") or {}
+    nodes = [cpair(cnat(n), node_gval(kinds[n], n)) for n in used]
+    # old replays carry no observed representations: take the expected ones
+    nrepr = [cpair(cnat(n), ostr(nrepr_obs[str(n)]) if str(n) in nrepr_obs else "(match repr %s with Ok t => Some t | _ => None end)" % node_gval(kinds[n], n)) for n in used]
+    keys = [key_gval(k) for k in case["probes"]]
+    if "krepr" in obs:
+        krepr = [ostr(r) for r in obs["krepr"]]
+    else:
+        krepr = ["(match repr %s with Ok t => Some t | _ => None end)" % k for k in keys]
+    oppanic = [cbool(b) for b in obs.get("oppanic", [False] * len(case["ops"]))]
+    return "mkcase %s %s %s %s %s %s %s %s %s %s %s %s %s %s" % (
+        cnat(case["replicas"]), cbool(case["custom"]), clist(ops), clist(vh), clist(probes), clist(rows), cnat(case.get("balance_tol", 0)),
+        clist(keys), clist(krepr), clist(nodes), clist(nrepr), clist(gpanic), clist(oppanic), cpair(cnat(obs["nkeys"]), cnat(obs["nring"])))
 
 
 def nontrivial(case, obs):
@@ -180,7 +289,29 @@ def bucket(case, obs):
     out.append("hyp:no-collision" if len(set(allh)) == len(allh) else "hyp:COLLISION")
     if any(v == -1 for row in obs["results"] for v in row):
         out.append("obs:absent")
+    kinds = case.get("kinds")
+    if kinds:
+        for n in {o["node"] for o in case["ops"]}:
+            out.append("node:" + kinds[n])
+        if any(o.get("fresh") for o in case["ops"]):
+            out.append("node:fresh-pointer")
+    for k in case["probes"]:
+        out.append("key:" + ("str" if isinstance(k, str) else k["k"]))
+    texts = [key_gval(k) .replace("GPtr (Some", "GVal").replace("GStringer", "GVal").replace("))", ")") for k in case["probes"]]
+    if len(set(texts)) < len(texts):
+        out.append("key:equal-representations")
+    if case["ops"] and not _final_members(case):
+        out.append("final:all-removed")
+    if any(v == -3 for row in obs["results"] for v in row) or any(obs.get("oppanic", [])):
+        out.append("obs:PANIC")
     return out
+
+
+def _final_members(case):
+    m = set()
+    for o in case["ops"]:
+        (m.discard if o["op"] == "remove" else m.add)(o["node"])
+    return m
 
 
 def explain(case, obs):
@@ -189,6 +320,13 @@ def explain(case, obs):
                 "hash built directly from the same pairs (or reports absence although a node has positive weight)" % case["pkg"])
     if case.get("kind") == "hash":
         return "hash.Hash(data) differs from murmur3.Sum64(data) for some input (the default hash must hash the whole input)"
+    if any(v == -3 for row in obs["results"] for v in row) or any(obs.get("oppanic", [])) or \
+            any(r is None for r in obs.get("krepr", [])) or any(r is None for r in (obs.get("nrepr") or {}).values()):
+        bad = sorted({str(case["probes"][i]) for row in obs["results"] for i, v in enumerate(row) if v == -3})
+        return ("ConsistentHash.Get / Add / Remove / lang.Repr PANICKED on a legal Go value (c13_lookup_total_keys: "
+                "lookup is total for every key type); panicking keys: %s; panicking ops: %s" % (
+                    ", ".join(bad[:6]) or "-", [i for i, b in enumerate(obs.get("oppanic", [])) if b]))
     return ("observed Get results contradict C13.Exec.spec_ok: an answer differs from the abstract ring's owner "
             "(c13_refines), or a key moved although its owner stayed (c13_remove_monotone / c13_add_monotone), "
-            "or a weight-0 / absent node received a key")
+            "or a weight-0 / removed / absent node received a key (c13_total, c13_remove_all_empties), or two key "
+            "values with the same representation got different nodes (c13_lookup_same_text)")
